@@ -187,6 +187,9 @@ private:
 
    status_t WaitAux(uint32 & retNotificationsCount) const
    {
+#ifdef MUSCLE_VERIF_HOOKS
+      if (muscle_verif::g_hooks) {(void) muscle_verif::g_hooks->CondWait(this, &_pendingNotificationsCount, (uint64)-1, &retNotificationsCount); return B_NO_ERROR;}
+#endif
       status_t ret;
 #if !defined(MUSCLE_AVOID_CPLUSPLUS11)
       std::unique_lock<std::mutex> lockGuard(_conditionMutex);
@@ -238,6 +241,9 @@ private:
 
    status_t WaitUntilAux(uint64 wakeupTime, uint32 & retNotificationsCount) const
    {
+#ifdef MUSCLE_VERIF_HOOKS
+      if (muscle_verif::g_hooks) return muscle_verif::g_hooks->CondWait(this, &_pendingNotificationsCount, wakeupTime, &retNotificationsCount) ? B_NO_ERROR : B_TIMED_OUT;
+#endif
       int64 timeDeltaMicros = (int64) (wakeupTime-GetRunTime64());  // how far in the future the wakeup-time is, in microseconds
       if (timeDeltaMicros <= 0) return B_TIMED_OUT;
 
@@ -310,6 +316,9 @@ private:
    status_t NotifyAux(uint32 increaseBy) const
    {
       if (increaseBy == 0) return B_NO_ERROR;  // no point waking everyone up for a no-op
+#ifdef MUSCLE_VERIF_HOOKS
+      if (muscle_verif::g_hooks) {muscle_verif::g_hooks->CondNotify(this, &_pendingNotificationsCount, increaseBy); return B_NO_ERROR;}
+#endif
 
       status_t ret;
 
